@@ -160,7 +160,7 @@ func TestC15Exhaustive(t *testing.T) {
 		{K: KByte, U: 0}, {K: KByte, U: 0x80}, {K: KU16, U: 0x0100}, {K: KU16, U: 0xffff}, {K: KU32, U: 0x80000000}, {K: KU32, U: 1},
 		{K: KU64, U: 1 << 63}, {K: KU64, U: 0x0102030405060708},
 		{K: KVar, U: 0}, {K: KVar, U: 127}, {K: KVar, U: 128}, {K: KVar, U: 1<<14 - 1}, {K: KVar, U: 1 << 35}, {K: KVar, U: 1<<63 - 1}, {K: KVar, U: ^uint64(0)},
-		{K: KBytes}, {K: KBytes, D: "00", NB: true}, {K: KBytes, D: "80ff7f", NB: false}, bytesItem(KBytes, 127, 1, true), bytesItem(KBytes, 128, 2, false),
+		{K: KBytes}, {K: KBytes, NB: true}, {K: KBytes, D: "00", NB: true}, {K: KBytes, D: "80ff7f", NB: false}, bytesItem(KBytes, 127, 1, true), bytesItem(KBytes, 128, 2, false),
 		{K: KString}, {K: KString, D: "61", NB: false}, {K: KString, D: "ff80", NB: true}, bytesItem(KString, 128, 3, true), bytesItem(KString, 129, 4, false),
 	}
 	depth := vstat.Pick(2, 3)
@@ -320,7 +320,10 @@ func case15FromBytes(data []byte) Case15 {
 		return b
 	}
 	c := Case15{}
-	for len(data) > 0 && len(c.Items) < 12 {
+	// one execution must stay far below the 10 s per-input limit of the fuzz engine even on a busy machine: every
+	// destination length costs a call, so the lengths of one case share a budget
+	budget := 20000
+	for len(data) > 0 && len(c.Items) < 8 {
 		h := next(1)[0]
 		kind := []string{KByte, KU16, KU32, KU64, KVar, KVar, KBytes, KString}[h&7]
 		mode := (h >> 3) & 3
@@ -337,8 +340,12 @@ func case15FromBytes(data []byte) Case15 {
 			case 2:
 				n = 1<<14 - 8 + int(raw%16)
 			default:
-				n = int(raw % 70000)
+				n = int(raw % 20000)
 			}
+			if n > budget {
+				n = int(raw % 256)
+			}
+			budget -= n
 			head := next(min(n, 8))
 			c.Items = append(c.Items, Item{K: kind, L: n, D: hex.EncodeToString(head), Seed: uint64(raw), NB: nb})
 		default:
